@@ -87,6 +87,34 @@ def planeWavePotential (length : List Nat) (spinless : Bool) : Op :=
             if oa ≠ ob ∧ oc ≠ od then accum op [(oa, 1), (ob, 1), (oc, 0), (od, 0)] (ratOp q)
             else op) op) op) op) op) [([], 0)]
 
+/-- index structure of `plane_wave_kinetic` for an arbitrary cell: every
+`operator += FermionOperator(key, k²/2)` as `(key, n)` with `n` the integer momentum
+(`k = Σ n_i b_i`, `b_i` the reciprocal basis) -/
+def planeWaveKineticStruct (length : List Nat) (spinless : Bool) : List (Term × List Int) :=
+  (allPoints length).flatMap fun idx =>
+    (spins spinless).map fun sp =>
+      let o := orbitalId length idx sp
+      ([(o, 1), (o, 0)], momentumInts length idx)
+
+/-- index structure of `plane_wave_potential` for an arbitrary cell: `(key, n(ω))` for every
+`operator += FermionOperator(key, (2π/V)/k_ω²)` (the zero momentum is skipped by the code) -/
+def planeWavePotentialStruct (length : List Nat) (spinless : Bool) : List (Term × List Int) :=
+  let pts := allPoints length
+  pts.flatMap fun om =>
+    let sh := momentumInts length om
+    if normSqInts sh = 0 then [] else
+    pts.flatMap fun ga =>
+      let gd := shiftIdx length ga sh false
+      pts.flatMap fun gb =>
+        let gc := shiftIdx length gb sh true
+        (spins spinless).flatMap fun sa =>
+          let oa := orbitalId length ga sa
+          let od := orbitalId length gd sa
+          (spins spinless).filterMap fun sb =>
+            let ob := orbitalId length gb sb
+            let oc := orbitalId length gc sb
+            if oa ≠ ob ∧ oc ≠ od then some ([(oa, 1), (ob, 1), (oc, 0), (od, 0)], sh) else none
+
 /-- index structure of `dual_basis_jellium_model`: every `operator += FermionOperator(key, coeff)`
 as `(key, kind, δ)` with `kind = 0`: kinetic coefficient `K(δ)`, `kind = 1`: potential
 coefficient `P(δ)`, `δ` = grid indices of the site `b` the outer loop is at -/
